@@ -160,8 +160,13 @@ package consensus
 // what a PreCommit carries is the four bytes GetPreCommits reads back
 //@ pred rmwf(m) = forall(k, 0, len(m.preCommitPayloads), len(m.preCommitPayloads[k].Data) >= 4)
 
+// the header of the proposal last handed to AddPayload (what its hash was computed over, besides the body)
+//@ ghost gProposalVersion Int
+//@ ghost gProposalPrevHash Ref
 //@ func (*recoveryMessage).AddPayload
 //@   requires p != nil
+//@   ghost gProposalVersion = ite(p.Type() == dbft.PrepareRequestType, as(Payload, p).version, gProposalVersion)
+//@   ghost gProposalPrevHash = ite(p.Type() == dbft.PrepareRequestType, as(Payload, p).prevHash, gProposalPrevHash)
 //@   requires implies(p.Type() == dbft.PreCommitType, p.GetPreCommit() != nil && len(p.GetPreCommit().Data()) >= 4)
 //@   requires implies(p.Type() == dbft.CommitType, p.GetCommit() != nil)
 //@   requires rmwf(m)
@@ -182,6 +187,7 @@ package consensus
 //@   requires p != nil
 //@   ensures [C19] @none implies(old(m.prepareRequest) == nil, result == nil)
 //@   ensures [C19] @rebuilt implies(old(m.prepareRequest) != nil, result != nil && as(Payload, result).message.cmType == dbft.PrepareRequestType && as(Payload, result).message.viewNumber == p.ViewNumber() && as(Payload, result).height == p.Height() && as(Payload, result).validatorIndex == ind && as(Payload, result).hash == nil)
+//@   ensures [C19] @sameHeader implies(old(m.prepareRequest) != nil, as(Payload, result).version == gProposalVersion && as(Payload, result).prevHash == gProposalPrevHash)
 //@   ensures [C19] @sameBody implies(old(m.prepareRequest) != nil, as(Payload, result).message.payload != nil && as(prepareRequest, as(Payload, result).message.payload).timestamp * 1000000000 == m.prepareRequest.Timestamp() && as(prepareRequest, as(Payload, result).message.payload).nonce == m.prepareRequest.Nonce() && sametable(as(prepareRequest, as(Payload, result).message.payload).transactionHashes, m.prepareRequest.TransactionHashes()))
 
 // The payloads this package hands out behind dbft.ConsensusPayload are its own *Payload: an interface call of
